@@ -73,7 +73,7 @@ def sites():
             if '"' in code and ("write!" in code or "format!" in code or "message" in code or "Err(" in code):
                 # keep format strings out of operator mutation (tests pin the text), but allow elsewhere
                 pass
-            for pat, rep in (OPS2 if _os.environ.get("MUT_OPS") == "2" else OPS):
+            for pat, rep in ([] if _os.environ.get("MUT_OPS") == "3" else OPS2 if _os.environ.get("MUT_OPS") == "2" else OPS):
                 if "DELETED" in rep:
                     continue
                 for m in re.finditer(pat, code):
@@ -86,6 +86,19 @@ def sites():
                             continue
                     new = code[:m.start()] + m.expand(rep) + code[m.end():] + (("//" + ln.split("//", 1)[1]) if "//" in ln else "")
                     res.append((f, i, ln, new, "%s -> %s" % (m.group(0).strip()[:40], m.expand(rep).strip()[:40])))
+            if _os.environ.get("MUT_OPS") == "3":
+                # any single-line statement deleted (not a binding: that rarely compiles) / swapped with the next one
+                st = code.strip()
+                if st.endswith(";") and not st.startswith(("let ", "use ", "return", "break", "continue", "pub ", "const ", "type ")) and st.count("(") == st.count(")"):
+                    res.append((f, i, ln, re.sub(r"\S.*$", "// deleted: " + st.replace("//", ""), ln), "delete any statement"))
+                if i + 1 < len(lines):
+                    nx = lines[i + 1]
+                    s1, s2 = code.strip(), nx.split("//")[0].strip()
+                    ind = lambda x: len(x) - len(x.lstrip())
+                    if s1.endswith(";") and s2.endswith(";") and ind(ln) == ind(nx) and s1.count("(") == s1.count(")") and s2.count("(") == s2.count(")") \
+                            and not s2.startswith(("return", "break", "continue")) and not s1.startswith(("return", "break", "continue")) and s1 != s2:
+                        res.append((f, i, ln, nx + "\n" + ln, "swap with next statement"))
+                continue
             # statement deletion: a whole-line call statement on self.<...>(...);
             if _os.environ.get("MUT_OPS") != "2" and re.match(r"^\s*(self\.[\w\.]+\([^;]*\);|\w+\.(push|fetch_add|fetch_sub|record_\w+|add_\w+)\([^;]*\);)\s*$", code):
                 res.append((f, i, ln, re.sub(r"\S.*$", "// deleted: " + s.replace("//", ""), ln), "delete statement"))
@@ -114,7 +127,11 @@ def worker(k, jobs):
         lines = open(p).read().split("\n")
         if lines[i] != old:
             continue
-        lines[i] = new
+        if desc == "swap with next statement":
+            a, b2 = new.split("\n", 1)
+            lines[i], lines[i + 1] = a, b2
+        else:
+            lines[i] = new
         open(p, "w").write("\n".join(lines))
         rc, log = run(["cargo", "test", "--lib", "--offline", "-q"], wt, env, timeout=300)
         status = "killed"
